@@ -85,6 +85,23 @@ reg("C17", "fault_enumeration", "failpoints at every callback invocation of ever
     "and the exact efficiency identity after resuming are asserted; random multi-fault schedules on top.",
     "Single-fault space complete per generated (config, stream); configs/streams sampled; explainers deep-copyable.", "DESIGN.md 3/C17")
 
+reg("C18", "exploration", "bit-for-bit differential replay: in-process, after a junk preamble, and across fresh subprocesses",
+    "Seeded scenarios over explainer x storage x imputer configurations are replayed and the bit patterns of all importance values, variances and "
+    "storage / reservoir contents after every call compared; a junk preamble (other library objects, GC churn) and fresh processes test history-, "
+    "address- and time-independence; scenarios whose digests do not depend on the seed are not counted.",
+    "Same PYTHONHASHSEED; seeding precedes construction; TreeStorage given an explicit seed.", "DESIGN.md 3/C18")
+reg("C19", "exploration", "structural invariant after every update with behaviourally named leaves (witness points); decoded TreeImputer traffic; recorded witness scenarios",
+    "After every update of drifting streams the reservoir key sets are compared with the names of the current trees' leaves (named by routing synthesised "
+    "witness points through river's traverse and the library's get_path_through_tree), capacities, identity of entries and newest-in-its-leaf asserted; "
+    "TreeImputer inputs decoded for all flag combinations. The stale-reservoir clause only bites when a subtree is replaced while the newest point goes "
+    "to an already-known leaf; such restructure events are counted and fixed witness scenarios guarantee they occur.",
+    "Complete dicts, numeric-coded categories, explicit tree seed; river 0.26 tree API for leaf enumeration.", "DESIGN.md 3/C19")
+reg("C20", "exploration", "differential execution of the shipped code in floats vs exact / 60-digit arithmetic under derived error bounds",
+    "Long ill-conditioned float streams are pushed through the shipped trackers and compared at checkpoints with exact integer-scaled sums and a 60-digit "
+    "smoothing evaluation under first-order error bounds (safety factor 4); explainer runs driven by such losses are executed twice from the same generator "
+    "state in floats and in exact rationals; worst error/bound ratios are reported.",
+    "Bounds from DESIGN C20; finite inputs.", "DESIGN.md 3/C20")
+
 def main():
     props = [json.loads(l) for l in open(os.path.join(HERE, "properties.jsonl"))]
     checks, na = [], []
